@@ -112,6 +112,21 @@ def env():
     e.client = Client(raise_request_exception=False)
     e.shape_cls = None
     _ENV = e
+    # the finite universe of URLs the history part can ever see: <hash>.js/.css of every class plus the two
+    # variables URLs of V (their input hash is a digest of V's constant data, learnt from one render)
+    e.universe = []
+    for k in "ABCVNP":
+        for kind in ("js", "css"):
+            e.universe.append(f"/components/cache/{e.cls[k]._class_hash}.{kind}")
+    # reference digest ("derived from the variables themselves"): md5 of the JSON dump, first 6 hex digits
+    from hashlib import md5
+
+    e.vars_hash = {
+        "js": md5(json.dumps({"x": 1}).encode()).hexdigest()[:6],
+        "css": md5(json.dumps({"c": "blue"}).encode()).hexdigest()[:6],
+    }
+    e.vars_urls = [f"/components/cache/{e.cls['V']._class_hash}.{e.vars_hash[kind]}.{kind}" for kind in ("js", "css")]
+    e.universe += e.vars_urls
     return e
 
 
@@ -181,26 +196,28 @@ def check_served(url: str, classes=None):
     status, body, ctype = fetch(url)
     label = f"{key}.{kind}" + (".vars" if inp else "")
     if status != 200:
-        return f"dead-url:{label}: emitted URL {url} answered {status}, expected 200 with {key}'s {kind}"
+        return f"dead-url: emitted URL {url} ({label}) answered {status}, expected 200 with {key}'s {kind}"
     if bodies is not None and body not in bodies:
-        return f"wrong-body:{label}: emitted URL {url} served {body[:60]!r}, expected {bodies[-1][:60]!r}"
+        return f"wrong-body: emitted URL {url} ({label}) served {body[:60]!r}, expected {bodies[-1][:60]!r}"
     if not ctype.startswith(CTYPE[kind]):
-        return f"wrong-type:{label}: emitted URL {url} served content type {ctype!r}, expected {CTYPE[kind]}"
+        return f"wrong-type: emitted URL {url} ({label}) served content type {ctype!r}, expected {CTYPE[kind]}"
     return None
 
 
 def check_lapsed(url: str):
-    """A URL without a live guarantee: 404 or the right answer, never 5xx / foreign code."""
+    """A URL no render has just announced: 404 or the right answer, never 5xx / foreign code."""
     exp = expected_for(url)
     status, body, ctype = fetch(url)
     key, kind, inp, bodies = exp
+    if bodies == ():
+        bodies = ("",)  # class without such code: the statement is silent, an empty 200 is tolerated
     label = f"{key}.{kind}" + (".vars" if inp else "")
     if status >= 500:
-        return f"server-error:{label}: GET {url} answered {status}"
+        return f"server-error: GET {url} ({label}) answered {status}"
     if status == 200 and bodies is not None and body not in bodies:
-        return f"foreign-body:{label}: GET {url} served {body[:60]!r}"
+        return f"foreign-body: GET {url} ({label}) served {body[:60]!r}"
     if status not in (200, 404):
-        return f"odd-status:{label}: GET {url} answered {status}"
+        return f"odd-status: GET {url} ({label}) answered {status}"
     return None
 
 
@@ -238,8 +255,6 @@ class World:
         boot.ID_SEAM.reset()
         self.cache_cfg = cache_cfg
         self.saved = {}  # class key -> pre-rendered html
-        self.live = set()  # URLs emitted since the last eviction that concerns them
-        self.known = set()  # every URL ever emitted in this history
         self.trace = ()
         self.emitted = 0
         self.raised = 0
@@ -272,16 +287,13 @@ def _do(w: World, op):
         return e.cls["P"].render(slots={"s": content}, type=op[1])
     if kind == "clear":
         media_cache().clear()
-        w.live.clear()
         return None
     if kind == "evict":
         cls = e.cls[op[1]]
         media_cache().delete(cache_key(cls, op[2]))
-        w.live = {u for u in w.live if expected_for(u)[:3] != (op[1], op[2], None)}
         return None
     if kind == "recreate":
         djc_cache.component_media_cache = None
-        w.live.clear()
         return None
     raise AssertionError(kind)
 
@@ -300,25 +312,28 @@ def hist_step(w: World, op):
     if html is not None:
         emitted = sorted({u for _, u in extract_urls(html)})
         w.emitted += len(emitted)
-        for u in emitted:
-            if expected_for(u) is not None:
-                w.live.add(u)
-                w.known.add(u)
     if replayed:
         return None, None
+    opsym = op[0] + (":" + op[-1] if op[0] in ("render", "page", "slot") else "")
+    # (1) what this output announces must be served, now
     for u in emitted:
-        if expected_for(u) is None:
-            return ("emitted", tuple(emitted)), f"emitted-unknown: {op} emitted URL {u!r} which names no rendered component's js/css"
-    for u in sorted(w.live):
         problem = check_served(u)
         if problem:
-            return ("emitted", tuple(emitted)), problem
-    for u in sorted(w.known - w.live):
-        problem = check_lapsed(u)
-        if problem:
-            return ("emitted", tuple(emitted)), problem
+            return ("emitted", tuple(_sym(x) for x in emitted)), _tag(problem, opsym)
+    # (2) every other URL of the universe: right code or 404, never 5xx / foreign code
+    for u in env().universe:
+        if u not in emitted:
+            problem = check_lapsed(u)
+            if problem:
+                return ("emitted", tuple(_sym(x) for x in emitted)), _tag(problem, opsym)
     _VALIDATED.add(w.trace)
     return ("emitted", tuple(_sym(u) for u in emitted)), None
+
+
+def _tag(problem, opsym):
+    """'clause: text' -> 'clause|op: text' (identity = violated clause + kind of the step that exposed it)."""
+    clause, text = problem.split(": ", 1)
+    return f"{clause}|{opsym}: {text}"
 
 
 def _sym(url):
@@ -342,11 +357,13 @@ def hist_canon(w: World):
     none = mc is None
     c = media_cache() if none else mc
     present = tuple((k, kind) for k, kind, key in all_known_keys() if c.has_key(key))
-    # vars entries: keyed by data hash, probe through the URLs seen so far
-    vars_present = tuple(sorted(_sym(u) for u in w.known if expected_for(u)[2] and c.has_key(cache_key(env().cls[expected_for(u)[0]], expected_for(u)[1], expected_for(u)[2]))))
+    vars_present = tuple(
+        _sym(u) for u in env().vars_urls
+        if c.has_key(cache_key(env().cls["V"], URL_RE.match(u).group("kind"), URL_RE.match(u).group("input")))
+    )
     if none:
         djc_cache.component_media_cache = None  # probing must not change the state
-    return (present, vars_present, none, tuple(sorted(w.saved)), tuple(sorted(_sym(u) for u in w.live)), tuple(sorted(_sym(u) for u in w.known)))
+    return (present, vars_present, none, tuple(sorted(w.saved)))
 
 
 def _hist_bfs_task(cache_cfg):
@@ -358,7 +375,7 @@ def _hist_bfs_task(cache_cfg):
         return World(cache_cfg)
 
     r = seq.bfs(make, ops, hist_step, hist_canon, max_states=100000)
-    nontriv = sum(1 for k in r.seen if k[4])  # states in which some emitted URL carries a live guarantee
+    nontriv = sum(1 for k in r.seen if k[0] or k[1])  # states with at least one script in the media cache
     _cleanup()
     return {"cfg": cache_cfg, "states": r.states, "transitions": r.transitions, "failures": r.failures, "fixpoint": r.fixpoint,
             "max_depth": r.max_depth, "samples": r.sample_histories, "outcomes": sorted(r.outcomes), "seen": set(r.seen.keys()), "nontrivial": nontriv}
@@ -442,19 +459,9 @@ METHODS = ["GET", "HEAD", "POST", "PUT", "PATCH", "DELETE", "OPTIONS"]
 
 
 def request_space():
-    """Symbolic request alphabet -> concrete values (needs the V vars hashes, so built after a render)."""
+    """Symbolic request alphabet -> concrete values."""
     e = env()
-    html = e.cls["V"].render(type="fragment")
-    vj = vc = None
-    for _, u in extract_urls(html):
-        m = URL_RE.match(u)
-        if m and m.group("input"):
-            if m.group("kind") == "js":
-                vj = m.group("input")
-            else:
-                vc = m.group("input")
-    if not vj or not vc:
-        raise par.HarnessError("component V did not announce js/css variables URLs")
+    vj, vc = e.vars_hash["js"], e.vars_hash["css"]
     hashes = {
         "A": e.cls["A"]._class_hash, "B": e.cls["B"]._class_hash, "C": e.cls["C"]._class_hash, "V": e.cls["V"]._class_hash,
         "unknown": "Nope_abc123", "A+x": e.cls["A"]._class_hash + "x", "A.lower": e.cls["A"]._class_hash.lower(),
@@ -466,6 +473,9 @@ def request_space():
     }
     inputs = {"absent": None, "Vjs": vj, "Vcss": vc, "junk": "zz", "js": "js"}
     return hashes, kinds, inputs
+
+
+_ANNOUNCED: set = set()  # URLs announced by the renders of _populate() (requests part)
 
 
 def classify(hk, kk, ik, populated):
@@ -480,8 +490,22 @@ def classify(hk, kk, ik, populated):
             return "open"
         return ("code", hk, kk, False)
     if hk == "V" and ((kk == "js" and ik == "Vjs") or (kk == "css" and ik == "Vcss")):
-        return ("code", hk, kk, True)
+        # a variables file counts as servable only when a render really announced this URL
+        url = f"/components/cache/{e.cls['V']._class_hash}.{e.vars_hash[kk]}.{kk}"
+        return ("code", hk, kk, True) if (url in _ANNOUNCED or not populated) else "open"
     return "open"  # known class and kind, input hash nobody announced
+
+
+def _populate():
+    """Render every class once so that its scripts are in the media cache (a failing render is not judged here)."""
+    e = env()
+    _ANNOUNCED.clear()
+    for k in "ABCV":
+        for t in ("fragment", "document"):
+            try:
+                _ANNOUNCED.update(u for _, u in extract_urls(e.cls[k].render(type=t)))
+            except Exception:  # noqa
+                boot.clear_render_registries()
 
 
 def do_request(method, hv, kv, iv):
@@ -537,8 +561,7 @@ def _requests_task(_):
     for populated in (False, True):
         media_cache().clear()
         if populated:
-            for k in "ABCV":
-                e.cls[k].render(type="document")
+            _populate()
         for hk, kk, ik, method in product(hashes, kinds, inputs, METHODS):
             path, status, body, ctype = do_request(method, hashes[hk], kinds[kk], inputs[ik])
             n += 1
@@ -556,6 +579,11 @@ def _requests_task(_):
 
 
 # ----------------------------------------------------------------------------- driver
+def _dispatch(task):
+    kind, arg = task
+    return {"bfs": _hist_bfs_task, "unmerged": _hist_unmerged_task, "shapes": _shapes_task, "requests": _requests_task}[kind](arg)
+
+
 def _hist_identity(cfg, problem):
     return f"hist/{cfg}|{problem.split(': ')[0]}"
 
@@ -569,10 +597,17 @@ def run(ctx):
         "non-trivial = states with at least one announced URL under guarantee (hist), renders that announce a URL (shapes), "
         "requests that address cached code (requests)"
     )
+    depth = 4 if thorough else 3
+    nops = len(hist_ops())
+    # one pool for everything; the long BFS tasks go first
+    tasks = [("bfs", cfg) for cfg in CACHE_CFGS] + [("requests", 0), ("shapes", 0)]
+    tasks += [("unmerged", (cfg, depth, first)) for cfg in (CACHE_CFGS if thorough else CACHE_CFGS[:1]) for first in range(nops)]
+    out = par.run_tasks(_dispatch, tasks)
     # --- history BFS
-    results = par.run_tasks(_hist_bfs_task, CACHE_CFGS)
     seen_by = {}
-    for res in results:
+    for (kind, _), res in zip(tasks, out):
+        if kind != "bfs":
+            continue
         cfg = res["cfg"]
         seen_by[cfg] = res["seen"]
         raised = sum(1 for o in res["outcomes"] if o.startswith("('raised'"))
@@ -580,7 +615,7 @@ def run(ctx):
             f"hist_bfs:{cfg}", states=res["states"], transitions=res["transitions"], validated=res["transitions"],
             nontrivial=res["nontrivial"], observed_distinct=len(res["outcomes"]),
             expected={"render_raised_outcomes": raised},
-            bound={"fixpoint": res["fixpoint"], "max_depth_reached": res["max_depth"], "ops": len(hist_ops())},
+            bound={"fixpoint": res["fixpoint"], "max_depth_reached": res["max_depth"], "ops": nops},
             samples=[{"cache": cfg, "history": h} for h in res["samples"][:2]],
         )
         if not res["fixpoint"] and not res["failures"]:
@@ -588,11 +623,11 @@ def run(ctx):
         for problem, hist in res["failures"]:
             fnd.report(_hist_identity(cfg, problem), f"[{cfg} cache] after {hist}: {problem}", {"part": "hist", "cache": cfg, "history": hist})
     # --- unmerged cross-check
-    depth = 4 if thorough else 3
-    nops = len(hist_ops())
-    tasks = [(cfg, depth, first) for cfg in (CACHE_CFGS if thorough else CACHE_CFGS[:1]) for first in range(nops)]
     agg = {}
-    for cfg, n_seq, n_tr, failures, canon_states, outcomes in par.run_tasks(_hist_unmerged_task, tasks):
+    for (kind, _), res in zip(tasks, out):
+        if kind != "unmerged":
+            continue
+        cfg, n_seq, n_tr, failures, canon_states, outcomes = res
         d = agg.setdefault(cfg, {"seq": 0, "tr": 0, "canon": set(), "out": set()})
         d["seq"] += n_seq
         d["tr"] += n_tr
@@ -605,17 +640,20 @@ def run(ctx):
         if extra and not fnd.violations and not fnd.known_hits:
             raise par.HarnessError(f"canonicalisation unsound ({cfg}): unmerged search reached {len(extra)} states the BFS did not")
         ev.add_part(f"hist_unmerged:{cfg}", states=d["seq"], transitions=d["tr"], validated=d["tr"],
-                    nontrivial=sum(1 for k in d["canon"] if k[4]), observed_distinct=len(d["out"]), bound={"depth": depth})
+                    nontrivial=sum(1 for k in d["canon"] if k[0] or k[1]), observed_distinct=len(d["out"]), bound={"depth": depth})
     # --- shapes and requests
-    (n, tr, nontriv, failures, nouts), = par.run_tasks(_shapes_task, [0])
-    ev.add_part("shapes", states=n, transitions=tr, validated=tr, nontrivial=nontriv, observed_distinct=nouts,
-                bound={"codes": len(CODES), "classes": len(CODES) ** 2})
-    for problem, case in failures:
-        fnd.report(f"shapes/{case['shape']}/{case['type']}|{problem.split(': ')[0]}", f"{case}: {problem}", case)
-    (n, nontriv, failures, nouts, exp), = par.run_tasks(_requests_task, [0])
-    ev.add_part("requests", states=n, transitions=n, validated=n, nontrivial=nontriv, observed_distinct=nouts, expected=exp)
-    for ident, what, case in failures:
-        fnd.report(ident, what, case)
+    for (kind, _), res in zip(tasks, out):
+        if kind == "shapes":
+            n, tr, nontriv, failures, nouts = res
+            ev.add_part("shapes", states=n, transitions=tr, validated=tr, nontrivial=nontriv, observed_distinct=nouts,
+                        bound={"codes": len(CODES), "classes": len(CODES) ** 2})
+            for problem, case in failures:
+                fnd.report(f"shapes/{case['shape']}/{case['type']}|{problem.split(': ')[0]}", f"{case}: {problem}", case)
+        elif kind == "requests":
+            n, nontriv, failures, nouts, exp = res
+            ev.add_part("requests", states=n, transitions=n, validated=n, nontrivial=nontriv, observed_distinct=nouts, expected=exp)
+            for ident, what, case in failures:
+                fnd.report(ident, what, case)
     _cleanup()
     ev.assumptions = [
         "single-threaded; locmem media cache (built-in and Django-configured); classes stay alive and have unique import paths",
@@ -649,8 +687,7 @@ def replay(ctx, case):
         hashes, kinds, inputs = request_space()
         media_cache().clear()
         if case["populated"]:
-            for k in "ABCV":
-                e.cls[k].render(type="document")
+            _populate()
         path, status, body, ctype = do_request(case["method"], hashes[case["hash"]], kinds[case["kind"]], inputs[case["input"]])
         res = judge_request(case["method"], case["hash"], case["kind"], case["input"], case["populated"], status, body, ctype)
         print(case["method"], path, status, ctype, repr(body[:80]), res)
